@@ -35,6 +35,10 @@ func worldGen(tape *simrt.Tape, tier, focus string) *worldCase {
 		maxCases = 5
 	}
 	c.NCases = tape.Range(1, maxCases, "ncases")
+	if tape.Bool(1, 6, "suite-named-like-a-case") {
+		// the simple name of a case also occurs earlier in its full name
+		c.SuiteName = "c0"
+	}
 	c.Versions = []int32{1}
 	if tape.Bool(1, 2, "http2") {
 		c.Versions = append(c.Versions, 2)
@@ -127,9 +131,9 @@ func worldGen(tape *simrt.Tape, tier, focus string) *worldCase {
 		case 0:
 			c.RunPatterns = []string{fmt.Sprintf("**/c%d", tape.Choose(c.NCases, "runcase"))}
 		case 1:
-			c.RunPatterns = []string{"Verif/**"}
+			c.RunPatterns = []string{c.suiteName() + "/**"}
 		case 2:
-			c.RunPatterns = []string{"**/c0", fmt.Sprintf("Verif/**/c%d", tape.Choose(c.NCases, "runcase2"))}
+			c.RunPatterns = []string{"**/c0", fmt.Sprintf("%s/**/c%d", c.suiteName(), tape.Choose(c.NCases, "runcase2"))}
 		}
 	}
 	// client process fate
